@@ -69,7 +69,7 @@ class ABADecomposer(Decomposer, ABC):
             else:
                 p = math.pi
                 theta2 = 2 * math.acos(a_axis_value)
-                if abs(a_axis_value - 1) < ATOL or abs(a_axis_value + 1) < ATOL:
+                if abs(b_axis_value) < ATOL and abs(c_axis_value) < ATOL:
                     m = p  # This can be anything, but setting m = p means theta3 == 0, which is better for gate count.
                 else:
                     m = 2 * math.atan2(c_axis_value, b_axis_value)
